@@ -882,7 +882,16 @@ func (s *Server) InjectPacket(cl *Client, pk packets.Packet) error {
 // processPublish processes a Publish packet.
 func (s *Server) processPublish(cl *Client, pk packets.Packet) error {
 	if !cl.Net.Inline && !IsValidFilter(pk.TopicName, true) {
-		return nil
+		if pk.FixedHeader.Qos == 0 {
+			return nil
+		}
+
+		ackType := packets.Puback
+		if pk.FixedHeader.Qos == 2 {
+			ackType = packets.Pubrec
+		}
+
+		return cl.WritePacket(s.buildAck(pk.PacketID, ackType, 0, pk.Properties, packets.ErrTopicNameInvalid))
 	}
 
 	if pk.FixedHeader.Qos > 0 && atomic.LoadInt32(&cl.State.Inflight.receiveQuota) == 0 { // QoS 0 publishes do not count against Receive Maximum
